@@ -99,6 +99,13 @@ def chain_ops(rng):
         ("head", lambda f: f.head(2), row),
         ("select_cols", lambda f: f[["n", "x", "other"]], {"op": "selectCols", "names": ["n", "x", "other"]}),
         ("concat", lambda f: pd.concat([f, f]), row),
+        # concatenation of frames of different provenance (the same logical dtype stored with different Arrow
+        # details: parquet names the list child 'element', in-memory packing 'item')
+        ("concat_with_parquet", lambda f: pd.concat([f.reset_index(drop=True), parquet(f)]), row),
+        ("concat_parquet_first", lambda f: pd.concat([parquet(f), f.reset_index(drop=True).query("x > -1e9")]), row),
+        ("concat_parquet_repacked", lambda f: (lambda g: pd.concat([g, g.dropna(on_nested="n", how="all")]))(parquet(f)), row),
+        ("concat_with_pickle", lambda f: pd.concat([f, pickle.loads(pickle.dumps(f))]), row),
+        ("concat_slices", lambda f: pd.concat([f.iloc[:1], f.iloc[1:]]), row),
         ("join_base", lambda f: f.join(pd.DataFrame({"j": np.arange(len(f.index.unique()), dtype=np.float64)}, index=f.index.unique())),
          {"op": "addBase", "name": "j"}),
         ("reset_index_drop", lambda f: f.reset_index(drop=True), row),
@@ -129,7 +136,7 @@ def run_chain(ctx, names=None, depth=None):
     hist = []
     for nm in seq:
         _, fn, aop = table[nm]
-        need = {"sort_base": ["k"], "dropna_base": ["x"], "query_base": ["x"], "query_base_none": ["x"], "set_index": ["x"],
+        need = {"concat_parquet_first": ["x"], "sort_base": ["k"], "dropna_base": ["x"], "query_base": ["x"], "query_base_none": ["x"], "set_index": ["x"],
                 "query_nested_all": ["n.b"], "sort_nested": ["n.b"], "eval_assign": ["n.b"], "query_nested": ["n.a"],
                 "query_nested_none": ["n.a"], "dropna_nested": ["n.a"], "select_cols": ["x", "other"]}.get(nm, [])
         avoid = {"join_base": ["j"], "add_nested": ["extra"]}.get(nm, [])
